@@ -1,30 +1,529 @@
-"""C01 — aperture masks are the true pixel-overlap fractions of the shape."""
+"""C01 — aperture masks are the true pixel-overlap fractions of the shape.
+
+K  : to_mask / bbox / get_overlap_slices / union / intersection / from_float of the real API against the
+     Coq model (coq/C01_Model.v, `check_case`) on an exact lattice and on arbitrary doubles (decision margins).
+T  : the geometry kernels live in compiled extension modules whose .pyx sources cannot be rebuilt here; the
+     current *text* of photutils/geometry/*.pyx is re-interpreted by a small fail-closed translator
+     (`load_kernels`) and executed (i) against the compiled kernels (bit-identical expected) and (ii) against the
+     same oracles as the compiled code, so an edited kernel text that breaks the property yields a concrete input.
+V  : independent Python oracles (exact rational centre counting; circle/ellipse-polygon intersection areas by
+     boundary integration; polygon clipping for rectangles; pixel-set semantics of slices).
+"""
+import ast
+import hashlib
 import math
+import re
 from fractions import Fraction as F
 
 import numpy as np
 
+from . import core
 from .core import coq, Some, Raw
 
 PID = 'C01'
 FILES = ['lib/Cases.v', 'C01_Model.v', 'C01_Proofs.v', 'C01_Properties.v']
 POW2 = (1, 2, 4, 8, 16, 32)
-TOL = F(1, 2 ** 40)
+TOL0 = F(1, 2 ** 40)
+FAMS = ('circle', 'cannulus', 'ellipse', 'eannulus', 'rect', 'rannulus')
 
 
 def q(x):
     return F(float(x))
 
 
+# =====================================================================================================
+# T: fail-closed re-interpretation of the .pyx kernel texts
+# =====================================================================================================
+PYX = ['core.pyx', 'circular_overlap.pyx', 'elliptical_overlap.pyx', 'rectangular_overlap.pyx']
+STRUCT = {'point': '_Point', 'intersections': '_Inter'}
+CTYPE = r'(?:unsigned\s+int|double|int|bool|point|intersections|np\.ndarray\[[^\]]*\])'
+
+
+class Untranslatable(Exception):
+    pass
+
+
+class _Point:
+    __slots__ = ('x', 'y')
+
+    def __init__(self, x=float('nan'), y=float('nan')):
+        self.x, self.y = x, y
+
+
+class _Inter:
+    __slots__ = ('p1', 'p2')
+
+    def __init__(self):
+        self.p1, self.p2 = _Point(), _Point()
+
+
+def _cp(v):
+    """C struct value semantics: assignment / return copies."""
+    if isinstance(v, _Point):
+        return _Point(v.x, v.y)
+    if isinstance(v, _Inter):
+        r = _Inter()
+        r.p1, r.p2 = _cp(v.p1), _cp(v.p2)
+        return r
+    return v
+
+
+def _div(a, b):
+    try:
+        return a / b
+    except ZeroDivisionError:
+        a = float(a)
+        if a != a or a == 0.0:
+            return float('nan')
+        neg = (a < 0) != (math.copysign(1.0, float(b)) < 0)
+        return -math.inf if neg else math.inf
+
+
+def _sqrt(x):
+    return math.sqrt(x) if x >= 0 else float('nan')
+
+
+def _asin(x):
+    return math.asin(x) if -1.0 <= x <= 1.0 else float('nan')
+
+
+def _pow(a, b):
+    try:
+        return a ** b
+    except (OverflowError, ZeroDivisionError):
+        return math.inf
+
+
+def _preprocess(text, fname):
+    """Line-oriented pre-pass: C declarations and type annotations -> plain Python source."""
+    lines = text.split('\n')
+    out = []
+    i, n = 0, len(lines)
+    while i < n:
+        ln = lines[i]
+        st = ln.strip()
+        if re.match(r'^(cimport\s|from\s+\S+\s+cimport\s)', st) or st.startswith('# cython:'):
+            out.append('')
+            i += 1
+            continue
+        if re.match(r'^cdef\s+extern\s+from\s+"math\.h"\s*:', st):
+            out.append('')
+            i += 1
+            while i < n and (lines[i].strip() == '' or lines[i].startswith((' ', '\t'))):
+                if lines[i].strip() and not re.match(r'^\s+double\s+(asin|sin|cos|sqrt|fabs)\(double x\)\s*$',
+                                                     lines[i]):
+                    raise Untranslatable(f'{fname}:{i + 1}: unexpected extern declaration: {lines[i].strip()}')
+                out.append('')
+                i += 1
+            continue
+        if re.match(r'^ctypedef\s+np\.float64_t\s+DTYPE_t\s*$', st):
+            out.append('')
+            i += 1
+            continue
+        m = re.match(r'^ctypedef\s+struct\s+(\w+)\s*:\s*$', st)
+        if m:
+            if m.group(1) not in STRUCT:
+                raise Untranslatable(f'{fname}:{i + 1}: unknown struct {m.group(1)}')
+            fields = []
+            out.append('')
+            i += 1
+            while i < n and (lines[i].strip() == '' or lines[i].startswith((' ', '\t'))):
+                if lines[i].strip():
+                    fields.append(lines[i].strip())
+                out.append('')
+                i += 1
+            want = {'point': ['double x', 'double y'], 'intersections': ['point p1', 'point p2']}[m.group(1)]
+            if fields != want:
+                raise Untranslatable(f'{fname}: struct {m.group(1)} changed: {fields}')
+            continue
+        m = re.match(r'^(\s*)(?:cdef\s+' + CTYPE + r'\s+|def\s+)(\w+)\s*\(', ln)
+        if m:
+            j, hdr = i, ln
+            while hdr.count('(') != hdr.count(')') or not hdr.rstrip().endswith(':'):
+                j += 1
+                if j >= n or j - i > 12:
+                    raise Untranslatable(f'{fname}:{i + 1}: unterminated function header')
+                hdr += '\n' + lines[j]
+            a, b = hdr.index('('), hdr.rindex(')')
+            args = re.sub(r'\b' + CTYPE + r'\s+(?=\w)', '', hdr[a + 1:b])
+            new = f'{m.group(1)}def {m.group(2)}({args}):'.split('\n')
+            out.extend(new)
+            out.extend([''] * ((j - i + 1) - len(new)))
+            i = j + 1
+            continue
+        m = re.match(r'^(\s+)cdef\s+(' + CTYPE + r')\s+(.*)$', ln)
+        if m:
+            ind, ty, rest = m.group(1), m.group(2), m.group(3).split('#')[0].strip()
+            if '=' in rest:
+                if not re.fullmatch(r'\w+', rest.split('=')[0].strip()):
+                    raise Untranslatable(f'{fname}:{i + 1}: unsupported declaration: {st}')
+                out.append(ind + rest)
+            elif ty in STRUCT:
+                out.append(ind + '; '.join(f'{v.strip()} = {STRUCT[ty]}()' for v in rest.split(',')))
+            else:
+                if not re.fullmatch(r'\w+(\s*,\s*\w+)*', rest):
+                    raise Untranslatable(f'{fname}:{i + 1}: unsupported declaration: {st}')
+                out.append(ind + 'pass')
+            i += 1
+            continue
+        out.append(ln)
+        i += 1
+    for k, l in enumerate(out, 1):
+        if re.search(r'\b(cdef|ctypedef|cimport|cpdef|nogil|inline)\b', l.split('#')[0]) and '"""' not in l:
+            raise Untranslatable(f'{fname}:{k}: unsupported Cython construct: {l.strip()}')
+    return '\n'.join(out)
+
+
+_ALLOWED = (ast.Module, ast.FunctionDef, ast.arguments, ast.arg, ast.Return, ast.Assign, ast.AugAssign, ast.For,
+            ast.If, ast.Expr, ast.Pass, ast.Raise, ast.Import, ast.alias, ast.BoolOp, ast.BinOp,
+            ast.UnaryOp, ast.Compare, ast.Call, ast.Constant, ast.Attribute, ast.Subscript, ast.Name, ast.List,
+            ast.Tuple, ast.Load, ast.Store, ast.And, ast.Or, ast.Not, ast.Add, ast.Sub, ast.Mult, ast.Div, ast.Mod,
+            ast.Pow, ast.USub, ast.UAdd, ast.Eq, ast.NotEq, ast.Lt, ast.LtE, ast.Gt, ast.GtE, ast.keyword)
+
+
+class _Rewrite(ast.NodeTransformer):
+    def visit_BinOp(self, node):
+        self.generic_visit(node)
+        if isinstance(node.op, (ast.Div, ast.Pow)):
+            f = '_div' if isinstance(node.op, ast.Div) else '_pow'
+            return ast.copy_location(ast.Call(ast.Name(f, ast.Load()), [node.left, node.right], []), node)
+        return node
+
+    def _wrap(self, v):
+        if isinstance(v, (ast.Name, ast.Attribute)):
+            return ast.copy_location(ast.Call(ast.Name('_cp', ast.Load()), [v], []), v)
+        if isinstance(v, ast.Tuple):
+            return ast.copy_location(ast.Tuple([self._wrap(e) for e in v.elts], ast.Load()), v)
+        return v
+
+    def visit_Assign(self, node):
+        self.generic_visit(node)
+        node.value = self._wrap(node.value)
+        return node
+
+    def visit_Return(self, node):
+        self.generic_visit(node)
+        if node.value is not None:
+            node.value = self._wrap(node.value)
+        return node
+
+
+def _translate(text, fname):
+    src = _preprocess(text, fname)
+    try:
+        tree = ast.parse(src, filename=fname)
+    except SyntaxError as e:
+        raise Untranslatable(f'{fname}:{e.lineno}: not in the supported subset: {e.msg}')
+    for node in ast.walk(tree):
+        if not isinstance(node, _ALLOWED):
+            raise Untranslatable(f'{fname}:{getattr(node, "lineno", "?")}: unsupported node {type(node).__name__}')
+        if isinstance(node, ast.Import) and [a.name for a in node.names] != ['numpy']:
+            raise Untranslatable(f'{fname}:{node.lineno}: unexpected import')
+    tree.body = [st for st in tree.body if not isinstance(st, ast.Import)]
+    tree = _Rewrite().visit(tree)
+    ast.fix_missing_locations(tree)
+    return tree
+
+
+KERNELS = ['circular_overlap_grid', 'elliptical_overlap_grid', 'rectangular_overlap_grid',
+           'circular_overlap_single_subpixel', 'circular_overlap_single_exact', 'circular_overlap_core',
+           'elliptical_overlap_single_subpixel', 'elliptical_overlap_single_exact',
+           'rectangular_overlap_single_subpixel', 'overlap_area_triangle_unit_circle', 'area_arc',
+           'area_triangle', 'floor_sqrt']
+
+
+def load_kernels(repo):
+    """Namespace with the Python re-interpretation of all kernels in the current .pyx texts."""
+    ns = {'np': np, '_div': _div, '_pow': _pow, '_cp': _cp, '_Point': _Point, '_Inter': _Inter,
+          'sqrt': _sqrt, 'asin': _asin, 'sin': math.sin, 'cos': math.cos, 'fabs': abs, 'abs': abs,
+          'max': max, 'min': min, 'range': range, 'Exception': Exception,
+          'NotImplementedError': NotImplementedError, '__builtins__': {}}
+    spans = []
+    for f in PYX:
+        p = repo / 'photutils' / 'geometry' / f
+        text = p.read_text()
+        exec(compile(_translate(text, f), str(p), 'exec'), ns)
+        spans.append({'file': 'photutils/geometry/' + f, 'lines': text.count('\n') + 1,
+                      'sha1': hashlib.sha1(text.encode()).hexdigest()[:16]})
+    for k in KERNELS:
+        if not callable(ns.get(k)):
+            raise Untranslatable(f'kernel function {k} not found in the .pyx texts')
+    return ns, spans
+
+
+# =====================================================================================================
+# the implementation under test, through two routes: compiled kernels (public to_mask) and kernel text
+# =====================================================================================================
+def make_aperture(case):
+    from photutils import aperture as ap
+    cls = {'circle': ap.CircularAperture, 'cannulus': ap.CircularAnnulus, 'ellipse': ap.EllipticalAperture,
+           'eannulus': ap.EllipticalAnnulus, 'rect': ap.RectangularAperture, 'rannulus': ap.RectangularAnnulus}
+    return cls[case['fam']]((case['px'], case['py']), **case['params'])
+
+
+def shapes_of(case, aper=None):
+    """(outer, inner) as ('Circle'|'Ellipse'|'Rect', [floats]) with the float cos/sin of theta; the inner
+    parameters are those the constructor stored."""
+    fam, p = case['fam'], case['params']
+    th = float(p.get('theta', 0.0))
+    c, s = math.cos(th), math.sin(th)
+    if aper is None:
+        aper = make_aperture(case)
+    if fam == 'circle':
+        return ('Circle', [p['r']]), None
+    if fam == 'cannulus':
+        return ('Circle', [p['r_out']]), ('Circle', [p['r_in']])
+    if fam == 'ellipse':
+        return ('Ellipse', [p['a'], p['b'], c, s]), None
+    if fam == 'eannulus':
+        return ('Ellipse', [p['a_out'], p['b_out'], c, s]), ('Ellipse', [p['a_in'], float(aper.b_in), c, s])
+    if fam == 'rect':
+        return ('Rect', [p['w'], p['h'], c, s]), None
+    return ('Rect', [p['w_out'], p['h_out'], c, s]), ('Rect', [p['w_in'], float(aper.h_in), c, s])
+
+
+def text_mask(ns, case, aper):
+    """MaskMixin.to_mask with the kernels taken from the .pyx *text* (same Python-level plumbing:
+    _translate_mask_mode, _bbox, _centered_edges are the real ones)."""
+    fam = case['fam']
+    rect = fam in ('rect', 'rannulus')
+    use_exact, sub = aper._translate_mask_mode(case['method'], case['sub'], rectangle=rect) if rect else \
+        aper._translate_mask_mode(case['method'], case['sub'])
+    if rect:
+        use_exact = 0
+    bbox, e = aper._bbox[0], aper._centered_edges[0]
+    ny, nx = bbox.shape
+    outer, inner = shapes_of(case, aper)
+    th = float(case['params'].get('theta', 0.0))
+
+    def one(sh):
+        if sh[0] == 'Circle':
+            return ns['circular_overlap_grid'](e[0], e[1], e[2], e[3], nx, ny, sh[1][0], use_exact, sub)
+        if sh[0] == 'Ellipse':
+            return ns['elliptical_overlap_grid'](e[0], e[1], e[2], e[3], nx, ny, sh[1][0], sh[1][1], th,
+                                                 use_exact, sub)
+        return ns['rectangular_overlap_grid'](e[0], e[1], e[2], e[3], nx, ny, sh[1][0], sh[1][1], th, 0, sub)
+    m = one(outer)
+    if inner is not None:
+        m -= one(inner)
+    return m
+
+
+# =====================================================================================================
+# V: independent oracles
+# =====================================================================================================
+def margin_exact(sh, x, y):
+    """(inside, min |deciding quantity|) of the strict centre test, in exact rationals."""
+    kind, v = sh
+    v = [q(t) for t in v]
+    if kind == 'Circle':
+        m = x * x + y * y - v[0] * v[0]
+        return m < 0, abs(m)
+    a, b, c, s = v
+    xt, yt = y * s + x * c, y * c - x * s
+    if kind == 'Ellipse':
+        m = xt * xt / (a * a) + yt * yt / (b * b) - 1
+        return m < 0, abs(m)
+    m1, m2 = abs(xt) - a / 2, abs(yt) - b / 2
+    return (m1 < 0 and m2 < 0), min(abs(m1), abs(m2))
+
+
+def oracle_counts(case, bb, s, tol):
+    """Number of sub-pixel centres inside (outer minus inner) per pixel, by definition, + decidedness."""
+    outer, inner = shapes_of(case)
+    px, py = q(case['px']), q(case['py'])
+    ny, nx = bb[3] - bb[2], bb[1] - bb[0]
+    cnt = np.zeros((ny, nx), int)
+    dec = np.ones((ny, nx), bool)
+    offs = [F(2 * a + 1, 2 * s) for a in range(s)]
+    for j in range(ny):
+        for i in range(nx):
+            x0, y0 = F(bb[0] + i) - F(1, 2) - px, F(bb[2] + j) - F(1, 2) - py
+            n = 0
+            for ox in offs:
+                for oy in offs:
+                    io, mo = margin_exact(outer, x0 + ox, y0 + oy)
+                    ii, mi = (False, F(1)) if inner is None else margin_exact(inner, x0 + ox, y0 + oy)
+                    if tol is not None and min(mo, mi) <= tol:
+                        dec[j, i] = False
+                    n += int(io) - int(ii)
+            cnt[j, i] = n
+    return cnt, dec
+
+
+def _seg_disc(px, py, qx, qy, r):
+    """signed area of triangle(0, p, q) intersected with the disc of radius r at the origin"""
+    dx, dy = qx - px, qy - py
+    a = dx * dx + dy * dy
+    if a == 0.0:
+        return 0.0
+    b = 2.0 * (px * dx + py * dy)
+    c = px * px + py * py - r * r
+    disc = b * b - 4.0 * a * c
+    ts = [0.0, 1.0]
+    if disc > 0.0:
+        sq = math.sqrt(disc)
+        qq = -0.5 * (b + math.copysign(sq, b))
+        for t in ((qq / a), (c / qq if qq != 0.0 else None)):
+            if t is not None and 0.0 < t < 1.0:
+                ts.append(t)
+    ts.sort()
+    tot = 0.0
+    for t0, t1 in zip(ts[:-1], ts[1:]):
+        ux, uy, vx, vy = px + t0 * dx, py + t0 * dy, px + t1 * dx, py + t1 * dy
+        tm = 0.5 * (t0 + t1)
+        mx, my = px + tm * dx, py + tm * dy
+        cr = ux * vy - uy * vx
+        if mx * mx + my * my < r * r:
+            tot += 0.5 * cr
+        else:
+            tot += 0.5 * r * r * math.atan2(cr, ux * vx + uy * vy)
+    return tot
+
+
+def disc_polygon_area(poly, r):
+    n = len(poly)
+    return abs(sum(_seg_disc(poly[k][0], poly[k][1], poly[(k + 1) % n][0], poly[(k + 1) % n][1], r)
+                   for k in range(n)))
+
+
+def _clip_axis(poly, axis, lim, sign):
+    """Sutherland-Hodgman against sign*coord <= lim"""
+    out = []
+    n = len(poly)
+    for k in range(n):
+        p, r = poly[k], poly[(k + 1) % n]
+        dp, dr = sign * p[axis] - lim, sign * r[axis] - lim
+        if dp <= 0:
+            out.append(p)
+        if (dp < 0 < dr) or (dr < 0 < dp):
+            t = dp / (dp - dr)
+            out.append((p[0] + t * (r[0] - p[0]), p[1] + t * (r[1] - p[1])))
+    return out
+
+
+def rect_polygon_area(poly, w, h):
+    for axis, lim in ((0, w / 2), (1, h / 2)):
+        for sign in (1, -1):
+            if not poly:
+                return 0.0
+            poly = _clip_axis(poly, axis, lim, sign)
+    n = len(poly)
+    return 0.5 * abs(sum(poly[k][0] * poly[(k + 1) % n][1] - poly[(k + 1) % n][0] * poly[k][1] for k in range(n)))
+
+
+def true_weights(case, bb):
+    """True area fraction of each bbox pixel covered by the shape (independent of the kernels)."""
+    outer, inner = shapes_of(case)
+    th = float(case['params'].get('theta', 0.0))
+    c, s = math.cos(th), math.sin(th)
+    px, py = case['px'], case['py']
+    ny, nx = bb[3] - bb[2], bb[1] - bb[0]
+    w = np.zeros((ny, nx))
+    for sign, sh in ((1.0, outer), (-1.0, inner)):
+        if sh is None:
+            continue
+        for j in range(ny):
+            for i in range(nx):
+                x0, y0 = bb[0] + i - 0.5 - px, bb[2] + j - 0.5 - py
+                cor = [(x0, y0), (x0 + 1, y0), (x0 + 1, y0 + 1), (x0, y0 + 1)]
+                if sh[0] == 'Circle':
+                    a = disc_polygon_area(cor, sh[1][0])
+                elif sh[0] == 'Ellipse':
+                    aa, bb_ = sh[1][0], sh[1][1]
+                    pol = [((x * c + y * s) / aa, (-x * s + y * c) / bb_) for x, y in cor]
+                    a = disc_polygon_area(pol, 1.0) * aa * bb_
+                else:
+                    pol = [(x * c + y * s, -x * s + y * c) for x, y in cor]
+                    a = rect_polygon_area(pol, sh[1][0], sh[1][1])
+                w[j, i] += sign * a
+    return w
+
+
+def true_extents(case):
+    outer, _ = shapes_of(case)
+    v = outer[1]
+    if outer[0] == 'Circle':
+        return v[0], v[0]
+    th = float(case['params'].get('theta', 0.0))
+    c, s = math.cos(th), math.sin(th)
+    if outer[0] == 'Ellipse':
+        return math.hypot(v[0] * c, v[1] * s), math.hypot(v[0] * s, v[1] * c)
+    return abs(v[0] / 2 * c) + abs(v[1] / 2 * s), abs(v[0] / 2 * s) + abs(v[1] / 2 * c)
+
+
+def bbox_oracle(case, bb):
+    """([(name, got, want)], n_skipped): the box must be the smallest integer pixel box containing the shape.
+    Lattice cases (dyadic centre/sizes, theta = 0) are decided exactly incl. extents ending exactly on a pixel
+    edge; for arbitrary doubles an extent closer than 1e-9 to a pixel edge is not decided in floats (counted)."""
+    px, py = case['px'], case['py']
+    th = float(case['params'].get('theta', 0.0))
+    res = []
+    if case.get('lat') and th == 0.0:
+        outer, _ = shapes_of(case)
+        v = [q(t) for t in outer[1]]
+        ex, ey = (v[0], v[0]) if outer[0] == 'Circle' else ((v[0], v[1]) if outer[0] == 'Ellipse' else (v[0] / 2, v[1] / 2))
+        h = F(1, 2)
+        res = [math.floor(q(px) - ex + h), math.ceil(q(px) + ex + h), math.floor(q(py) - ey + h),
+               math.ceil(q(py) + ey + h)]
+    else:
+        ex, ey = true_extents(case)
+        scale = max(1.0, abs(px), abs(py), ex, ey)
+        for val, lohi in ((px - ex, 'lo'), (px + ex, 'hi'), (py - ey, 'lo'), (py + ey, 'hi')):
+            t = val + 0.5
+            if abs(t - round(t)) < 1e-9 * scale:
+                res.append(None)
+            else:
+                res.append(math.floor(t) if lohi == 'lo' else math.ceil(t))
+    bad = [(n, g, w) for n, g, w in zip(('ixmin', 'ixmax', 'iymin', 'iymax'), bb, res) if w is not None and g != w]
+    return bad, sum(1 for r in res if r is None)
+
+
+def from_float_oracle(a, ft):
+    """message unless ft = (ixmin, ixmax, iymin, iymax) is the smallest integer pixel box containing
+    [a0, a1] x [a2, a3] (pixel i spans [i - 1/2, i + 1/2]; upper limits exclusive)"""
+    h = F(1, 2)
+    ok = (F(ft[0]) - h <= q(a[0]) < F(ft[0]) + h and F(ft[1]) - 3 * h < q(a[1]) <= F(ft[1]) - h
+          and F(ft[2]) - h <= q(a[2]) < F(ft[2]) + h and F(ft[3]) - 3 * h < q(a[3]) <= F(ft[3]) - h)
+    return None if ok else 'not the smallest integer pixel box containing the rectangle'
+
+
+def slices_oracle(b, shape, sl, ss):
+    """pixel-set semantics of get_overlap_slices; returns a message or None"""
+    ny, nx = shape
+    common = {(y, x) for y in range(max(b[2], 0), min(b[3], ny)) for x in range(max(b[0], 0), min(b[1], nx))}
+    if (sl is None) != (ss is None):
+        return 'only one of the two slice tuples is None'
+    if sl is None:
+        return None if not common else f'None returned but {len(common)} pixels are common'
+    if not common:
+        return 'no pixel is common to the box and the image but the result is not None'
+    for t in (sl, ss):
+        for u in t:
+            if u.step not in (None, 1) or u.start is None or u.stop is None or u.start < 0 or u.stop < u.start:
+                return f'malformed slice {u}'
+    large = {(y, x) for y in range(sl[0].start, sl[0].stop) for x in range(sl[1].start, sl[1].stop)}
+    small = [(y, x) for y in range(ss[0].start, ss[0].stop) for x in range(ss[1].start, ss[1].stop)]
+    if large != common:
+        return 'slices_large does not select exactly the common pixels'
+    if sorted((y + b[2], x + b[0]) for y, x in small) != sorted(common):
+        return 'slices_small is not slices_large shifted by the box origin'
+    if ss[0].stop > b[3] - b[2] or ss[1].stop > b[1] - b[0] or sl[0].stop > ny or sl[1].stop > nx:
+        return 'slice exceeds the array it indexes'
+    return None
+
+
+# =====================================================================================================
+# generators
+# =====================================================================================================
 def lattice(rng, lo, hi, den=8):
     return rng.randint(int(lo * den), int(hi * den)) / den
 
 
 def gen_mask_case(rng, tier):
-    """Returns dict describing one to_mask case."""
     fam = rng.choice(['circle', 'circle', 'cannulus', 'ellipse', 'eannulus', 'rect', 'rannulus'])
-    lat = rng.random() < 0.6
-    big = rng.random() < (0.05 if tier == 'quick' else 0.1)
+    lat = rng.random() < 0.55
+    big = rng.random() < 0.06
     if lat:
         pos_kind = rng.choice(['generic', 'integer', 'half', 'far'])
         if pos_kind == 'integer':
@@ -40,6 +539,7 @@ def gen_mask_case(rng, tier):
         px, py = rng.uniform(-3, 12), rng.uniform(-3, 12)
         if rng.random() < 0.1:
             px += rng.choice([-1e4, 1e4])
+            pos_kind = 'double-far'
     mx = 40.0 if big else 5.0
 
     def size(lo=0.125):
@@ -47,18 +547,12 @@ def gen_mask_case(rng, tier):
             return lattice(rng, lo, mx)
         return rng.choice([rng.uniform(0.03, 1.0), rng.uniform(0.03, mx)])
     theta = 0.0
-    if fam in ('ellipse', 'eannulus', 'rect', 'rannulus'):
-        if lat:
-            theta = 0.0
-        else:
-            theta = rng.choice([0.0, math.pi / 4, math.pi / 2, 3 * math.pi / 4, math.pi, -math.pi / 4,
-                                rng.uniform(-4, 4), rng.uniform(-4, 4)])
-    c, s = math.cos(theta), math.sin(theta)
+    if fam in ('ellipse', 'eannulus', 'rect', 'rannulus') and not lat:
+        theta = rng.choice([0.0, math.pi / 4, math.pi / 2, 3 * math.pi / 4, math.pi, -math.pi / 4,
+                            rng.uniform(-4, 4), rng.uniform(-4, 4)])
     exact_arith = lat
     if fam == 'circle':
-        r = size()
-        params = dict(r=r)
-        outer, inner = ('Circle', [r]), None
+        params = dict(r=size())
     elif fam == 'cannulus':
         r_out = size(0.25)
         ratio = rng.choice([0.999, 0.5, 0.25, 0.9])
@@ -66,16 +560,13 @@ def gen_mask_case(rng, tier):
         if not r_in < r_out:
             r_in = r_out / 2
         params = dict(r_in=r_in, r_out=r_out)
-        outer, inner = ('Circle', [r_out]), ('Circle', [r_in])
     elif fam == 'ellipse':
         if lat:
-            a = rng.choice([0.5, 1.0, 2.0, 4.0])
-            b = rng.choice([0.5, 1.0, 2.0, 4.0])
+            a, b = rng.choice([0.5, 1.0, 2.0, 4.0]), rng.choice([0.5, 1.0, 2.0, 4.0])
         else:
             a = size()
             b = a * rng.choice([1.0, 0.5, 0.02, rng.uniform(0.02, 1)])
         params = dict(a=a, b=b, theta=theta)
-        outer, inner = ('Ellipse', [a, b, c, s]), None
     elif fam == 'eannulus':
         if lat:
             a_out, b_out = rng.choice([(2.0, 1.0), (4.0, 2.0), (4.0, 4.0), (2.0, 2.0)])
@@ -84,29 +575,25 @@ def gen_mask_case(rng, tier):
             a_out = size(0.25)
             b_out = a_out * rng.uniform(0.05, 1)
             a_in = a_out * rng.choice([0.999, 0.5, rng.uniform(0.05, 0.99)])
-        b_in = b_out * a_in / a_out     # the constructor's default
         params = dict(a_in=a_in, a_out=a_out, b_out=b_out, theta=theta)
-        outer, inner = ('Ellipse', [a_out, b_out, c, s]), ('Ellipse', [a_in, b_in, c, s])
+        if rng.random() < 0.3:
+            params['b_in'] = b_out * rng.choice([0.5, 0.25])
     elif fam == 'rect':
-        w, h = size(), size()
-        params = dict(w=w, h=h, theta=theta)
-        outer, inner = ('Rect', [w, h, c, s]), None
+        params = dict(w=size(), h=size(), theta=theta)
     else:
         w_out, h_out = size(0.25), size(0.25)
-        if lat:
-            w_in = w_out / 2
-        else:
-            w_in = w_out * rng.choice([0.999, 0.5, rng.uniform(0.05, 0.99)])
-        h_in = w_in * h_out / w_out
+        w_in = w_out / 2 if lat else w_out * rng.choice([0.999, 0.5, rng.uniform(0.05, 0.99)])
         params = dict(w_in=w_in, w_out=w_out, h_out=h_out, theta=theta)
-        outer, inner = ('Rect', [w_out, h_out, c, s]), ('Rect', [w_in, h_in, c, s])
-        if lat and q(h_in) * q(w_out) != q(w_in) * q(h_out):
+        if rng.random() < 0.3:
+            params['h_in'] = h_out * rng.choice([0.5, 0.25])
+        elif lat and q(w_in) * q(h_out) / q(w_out) != q(w_in * h_out / w_out):
             exact_arith = False
     method = rng.choice(['center', 'subpixel', 'subpixel', 'exact'])
-    ext = max(v for v in outer[1][:2]) if outer[0] != 'Rect' else 0.5 * math.hypot(*outer[1][:2])
-    area_est = (2 * ext + 2) ** 2 * (2 if inner else 1) * (1 if exact_arith else 2)
+    sizes = [v for k, v in params.items() if k != 'theta']
+    ext = max(sizes) if fam not in ('rect', 'rannulus') else 0.5 * math.hypot(max(sizes), max(sizes))
+    area_est = (2 * ext + 2) ** 2 * (2 if fam.endswith('annulus') else 1) * (1 if exact_arith else 2)
     budget = 5000 if tier == 'quick' else 20000
-    if method == 'exact' and fam in ('rect', 'rannulus') and area_est * 1024 > 3 * budget:
+    if method == 'exact' and fam in ('rect', 'rannulus') and area_est * 1024 > 12 * budget:
         method = 'subpixel'
     if method == 'center' and area_est > budget:
         method = 'exact' if fam not in ('rect', 'rannulus') else 'center'
@@ -115,19 +602,49 @@ def gen_mask_case(rng, tier):
         sub = rng.choice(allowed[-4:])
     else:
         sub = rng.choice([1, 5])
-    return dict(fam=fam, params=params, px=px, py=py, method=method, sub=sub, outer=outer, inner=inner,
-                lat=lat, pos_kind=pos_kind, exact_arith=exact_arith, theta=theta)
+    return dict(fam=fam, params=params, px=px, py=py, method=method, sub=sub, lat=lat, pos_kind=pos_kind,
+                exact_arith=exact_arith)
 
 
-def make_aperture(case):
-    from photutils import aperture as ap
-    cls = {'circle': ap.CircularAperture, 'cannulus': ap.CircularAnnulus, 'ellipse': ap.EllipticalAperture,
-           'eannulus': ap.EllipticalAnnulus, 'rect': ap.RectangularAperture, 'rannulus': ap.RectangularAnnulus}
-    return cls[case['fam']]((case['px'], case['py']), **case['params'])
+def gen_huge_case(rng):
+    """radii/semi-axes/widths of several hundred pixels, needle-thin ellipses: Python-side oracles only"""
+    fam = rng.choice(FAMS)
+    px, py = rng.uniform(-50, 50), rng.uniform(-50, 50)
+    th = rng.choice([0.0, math.pi / 4, rng.uniform(-4, 4)])
+    R = rng.uniform(60, 300)
+    if fam == 'circle':
+        params = dict(r=R)
+    elif fam == 'cannulus':
+        params = dict(r_in=R * rng.choice([0.999, 0.7]), r_out=R)
+    elif fam == 'ellipse':
+        params = dict(a=R, b=R * rng.choice([0.02, 0.3, 1.0]), theta=th)
+    elif fam == 'eannulus':
+        params = dict(a_in=R * rng.choice([0.999, 0.6]), a_out=R, b_out=R * rng.choice([0.02, 0.5]), theta=th)
+    elif fam == 'rect':
+        params = dict(w=R, h=R * rng.choice([0.02, 0.7]), theta=th)
+    else:
+        params = dict(w_in=R * rng.choice([0.999, 0.5]), w_out=R, h_out=R * rng.choice([0.05, 0.7]), theta=th)
+    method = rng.choice(['center', 'exact']) if fam not in ('rect', 'rannulus') else 'center'
+    return dict(fam=fam, params=params, px=px, py=py, method=method, sub=1, lat=False, pos_kind='huge',
+                exact_arith=False)
 
 
-def shape_coq(sh):
-    return Raw('(' + sh[0] + ' ' + ' '.join(coq(q(v)) for v in sh[1]) + ')')
+# =====================================================================================================
+# per-mask checks
+# =====================================================================================================
+def mask_rep(case, source):
+    return dict(kind='mask', source=source, exact_arith=bool(case.get('exact_arith')), lat=bool(case.get('lat')),
+                **{k_: case[k_] for k_ in ('fam', 'params', 'px', 'py', 'method', 'sub')})
+
+
+def case_key(case):
+    return [case['fam'], case['params'], case['px'], case['py'], case['method'], case['sub']]
+
+
+def case_tol(case, ex, ey):
+    """decision margin: 2^-40 scaled by the magnitude of the coordinates that enter the float arithmetic"""
+    mag = max(1.0, abs(case['px']), abs(case['py'])) * max(1.0, ex + 1, ey + 1) ** 2
+    return TOL0 * (1 << max(0, math.ceil(math.log2(mag))))
 
 
 def counts_from_weights(w, s):
@@ -138,217 +655,486 @@ def counts_from_weights(w, s):
     return r.astype(int)
 
 
-def mask_case_coq(case, aper, m):
-    ex, ey = aper._xy_extents
-    fam = case['fam']
-    rect = fam in ('rect', 'rannulus')
+def eff_sub(case):
+    rect = case['fam'] in ('rect', 'rannulus')
     mode = {'center': 0, 'subpixel': 1, 'exact': 2}[case['method']]
     s_eff = 32 if (rect and mode == 2) else (1 if mode == 0 else case['sub'])
-    use_exact = (mode == 2 and not rect)
+    return rect, mode, s_eff, (mode == 2 and not rect)
+
+
+def shape_coq(sh):
+    return Raw('(' + sh[0] + ' ' + ' '.join(coq(q(v)) for v in sh[1]) + ')')
+
+
+def mask_case_coq(case, aper, data, bb):
+    ex, ey = (float(v) for v in aper._xy_extents)
+    rect, mode, s_eff, use_exact = eff_sub(case)
     exact_arith = case['exact_arith'] and s_eff in POW2
     counts = None
     if not use_exact:
-        cnt = counts_from_weights(m.data, s_eff)
+        cnt = counts_from_weights(data, s_eff)
         if cnt is None:
             return None
         counts = Some([[int(v) for v in row] for row in cnt])
-    bb = m.bbox
+    outer, inner = shapes_of(case, aper)
     return 'CMask ' + ' '.join([
-        shape_coq(case['outer']), 'None' if case['inner'] is None else '(Some ' + shape_coq(case['inner']) + ')',
+        shape_coq(outer), 'None' if inner is None else '(Some ' + shape_coq(inner) + ')',
         coq(q(case['px'])), coq(q(case['py'])), coq(q(ex)), coq(q(ey)), coq(mode), coq(case['sub']), coq(rect),
-        'None' if exact_arith else '(Some ' + coq(TOL) + ')',
-        coq((bb.ixmin, bb.ixmax, bb.iymin, bb.iymax)), coq(counts)])
+        'None' if exact_arith else '(Some ' + coq(case_tol(case, ex, ey)) + ')',
+        coq(tuple(bb)), coq(counts)])
 
 
-# ---------- independent numeric oracles for the 'exact' method (support, not proof) ----------
-def circle_pixel_area(x0, y0, x1, y1, r):
-    """Area of [x0,x1]x[y0,y1] intersected with the disc of radius r at the origin, by
-    exact integration of the chord length (independent of the .pyx case analysis)."""
-    def G(t):    # antiderivative of sqrt(r^2 - t^2)
-        t = max(-r, min(r, t))
-        return 0.5 * (t * math.sqrt(max(0.0, r * r - t * t)) + r * r * math.asin(t / r))
-    # integrate over x the length of [y0,y1] ∩ [-s(x), s(x)], s = sqrt(r^2-x^2); split at
-    # the x where s(x) crosses |y0|, |y1|
-    xs = {max(-r, min(r, x0)), max(-r, min(r, x1))}
-    for yv in (y0, y1):
-        if abs(yv) <= r:
-            xc = math.sqrt(r * r - yv * yv)
-            for v in (-xc, xc):
-                if x0 < v < x1:
-                    xs.add(v)
-    xs = sorted(xs)
-    tot = 0.0
-    for a, b in zip(xs[:-1], xs[1:]):
-        if b <= a:
-            continue
-        mid = 0.5 * (a + b)
-        sm = math.sqrt(max(0.0, r * r - mid * mid))
-        hi_is_s = sm < y1
-        lo_is_s = -sm > y0
-        if min(y1, sm) <= max(y0, -sm):
-            continue
-        # integral of (min(y1,s) - max(y0,-s))
-        part = 0.0
-        part += (G(b) - G(a)) if hi_is_s else y1 * (b - a)
-        part -= -(G(b) - G(a)) if lo_is_s else y0 * (b - a)
-        tot += part
-    return tot
+def exact_tolerance(case):
+    """accuracy demanded of the 'exact' weights.  Circles: pure rounding.  Ellipses: the kernel snaps
+    vertices within 1e-10 of the unit circle (in the frame where the ellipse is the unit circle), which moves
+    an area by at most ~1e-10 * max(a, b) pixel."""
+    sizes = [v for k, v in case['params'].items() if k != 'theta']
+    if case['fam'] in ('circle', 'cannulus'):
+        return 1e-11 * max(1.0, max(sizes)) ** 2
+    return 1e-9 * max(1.0, max(sizes))
 
 
-def exact_oracle(case, m):
-    """max abs error of the 'exact' weights against an independent computation."""
+def direct_checks(ctx, case, aper, data, bb, source):
+    """Property clauses decided on the implementation's output alone. Returns list of (sig, what, extra)."""
     fam = case['fam']
-    bb = m.bbox
-    px, py = case['px'], case['py']
-    if fam in ('circle', 'cannulus'):
-        radii = [case['outer'][1][0]] + ([case['inner'][1][0]] if case['inner'] else [])
-        want = np.zeros(m.data.shape)
-        for k, r in enumerate(radii):
-            for j in range(m.data.shape[0]):
-                for i in range(m.data.shape[1]):
-                    a = circle_pixel_area(bb.ixmin + i - 0.5 - px, bb.iymin + j - 0.5 - py,
-                                          bb.ixmin + i + 0.5 - px, bb.iymin + j + 0.5 - py, r)
-                    want[j, i] += a if k == 0 else -a
-        return float(np.max(np.abs(want - m.data))), 1e-9
-    return None, None
+    out = []
+    rep = mask_rep(case, source)
+    lo, hi = float(data.min()), float(data.max())
+    if not (lo >= -1e-12 and hi <= 1 + 1e-12) or not np.all(np.isfinite(data)):
+        out.append((f'to_mask:{fam}:weights-range', f'mask weight outside [0,1]: [{lo}, {hi}]', rep))
+    rect, mode, s_eff, use_exact = eff_sub(case)
+    area = float(aper.area)
+    tot = float(data.sum())
+    if use_exact:
+        ctx.support('exact-weights-sum-vs-analytic-area')
+        if not abs(tot - area) <= exact_tolerance(case) * max(4.0, data.size ** 0.5):
+            out.append((f'to_mask:{fam}:sum-vs-area', f'sum of exact weights {tot!r} differs from the analytic area '
+                        f'{area!r}', rep))
+        if data.size <= 4000:
+            ctx.support('exact-weights-vs-independent-area-integration')
+            want = true_weights(case, bb)
+            err = float(np.max(np.abs(want - data)))
+            if not err <= exact_tolerance(case):
+                j, i = np.unravel_index(np.argmax(np.abs(want - data)), data.shape)
+                out.append((f'to_mask:{fam}:exact-weights', f'exact weight of pixel (y={bb[2] + j}, x={bb[0] + i}) '
+                            f'is {data[j, i]!r}, true covered fraction {want[j, i]!r}', rep))
+    elif rect and mode == 2 and data.size <= 1500:
+        # documented accuracy of the rectangle "exact" mode: 32x32 sub-sampling.  Rigorous bound: a straight
+        # edge crosses at most 63 of the 32x32 sub-cells of a pixel; <= 4 edges per rectangle
+        ctx.support('rectangle-exact-vs-polygon-clipping')
+        want = true_weights(case, bb)
+        nrect = 2 if fam == 'rannulus' else 1
+        err = float(np.max(np.abs(want - data)))
+        if not err <= 63 * 4 * nrect / 1024 + 1e-9 or not abs(tot - area) <= 0.25 * nrect * (4 + data.size ** 0.5 * 8):
+            out.append((f'to_mask:{fam}:exact-weights', f'rectangle weight differs from the covered fraction by {err}',
+                        rep))
+    bad, skipped = bbox_oracle(case, bb)
+    if skipped:
+        ctx.stat('excluded', 'bbox-edge-tie-undecided-in-floats', skipped)
+    if bad:
+        out.append((f'bbox:{fam}:not-minimal', 'bounding box is not the smallest integer pixel box containing the '
+                    f'shape: {bad}', rep))
+    if tuple(data.shape) != (bb[3] - bb[2], bb[1] - bb[0]):
+        out.append((f'to_mask:{fam}:shape', 'mask shape differs from the bbox shape', rep))
+    return out
 
 
-def sum_vs_area(case, aper, m):
-    """sum of weights vs analytic area."""
-    fam = case['fam']
-    area = aper.area
-    tot = float(m.data.sum())
-    if case['method'] == 'exact' and fam in ('circle', 'cannulus', 'ellipse', 'eannulus'):
-        return abs(tot - area) <= 1e-8 * max(1.0, area)
-    if case['method'] == 'exact':   # rectangle: 32x32 subsampling accuracy
-        w, h = case['outer'][1][:2]
-        per = 2 * (w + h)
-        if case['inner']:
-            per += 2 * (case['inner'][1][0] + case['inner'][1][1])
-        return abs(tot - area) <= per * math.sqrt(2) / 32 + 1e-9
-    return True
+def huge_center_oracle(case, data, bb):
+    """vectorised float oracle for 'center' masks too large for exact arithmetic; undecided pixels skipped"""
+    outer, inner = shapes_of(case)
+    X = (np.arange(bb[0], bb[1]) - case['px'])[None, :]
+    Y = (np.arange(bb[2], bb[3]) - case['py'])[:, None]
+
+    def ins(sh):
+        v = sh[1]
+        if sh[0] == 'Circle':
+            m = X * X + Y * Y - v[0] * v[0]
+            return m < 0, np.abs(m) / max(1.0, v[0] * v[0])
+        xt, yt = Y * v[3] + X * v[2], Y * v[2] - X * v[3]
+        if sh[0] == 'Ellipse':
+            m = xt * xt / (v[0] * v[0]) + yt * yt / (v[1] * v[1]) - 1
+            return m < 0, np.abs(m)
+        m1, m2 = np.abs(xt) - v[0] / 2, np.abs(yt) - v[1] / 2
+        return (m1 < 0) & (m2 < 0), np.minimum(np.abs(m1), np.abs(m2))
+    io, mo = ins(outer)
+    want = io.astype(float)
+    dec = mo > 1e-9
+    if inner is not None:
+        ii, mi = ins(inner)
+        want -= ii
+        dec &= mi > 1e-9
+    badpix = dec & (want != data)
+    return int(badpix.sum()), int((~dec).sum())
 
 
+# =====================================================================================================
 def run(ctx):
     ctx.build(FILES)
     rng = ctx.rng
-    ctx.cov['rule'] = ('to_mask of the six pixel aperture classes x {center, subpixel(1..32), exact} on (i) an exact '
-                       'lattice (dyadic centres/sizes, theta=0, power-of-two subpixels: bit-exact comparison incl. ties) '
-                       'and (ii) arbitrary doubles incl. rotations and far-off-image centres (pixels whose deciding '
-                       'quantity is within 2^-40 of 0 are skipped); BoundingBox slices/union/intersection on random and '
-                       'boundary boxes; non-trivial = mask has a pixel strictly between... any non-empty mask; distinct '
-                       'by (class, params, position, method, subpixels)')
+    quick = ctx.tier == 'quick'
+    ctx.cov['rule'] = (
+        'to_mask of the six pixel aperture classes x {center, subpixel(1..32), exact} on (i) an exact lattice '
+        '(dyadic centres/sizes, theta=0, power-of-two subpixels: exact comparison incl. ties) and (ii) arbitrary '
+        'doubles incl. rotations, needle ellipses, annulus ratio 0.999 and far-off-image centres (pixels with a '
+        'sub-pixel centre whose deciding quantity is within the scaled 2^-40 margin are skipped); every mask through '
+        'the compiled kernels AND through the re-interpreted .pyx text; huge shapes (60..300 px) with Python oracles '
+        'only; BoundingBox from_float/slices/union/intersection on random and boundary boxes incl. zero-size images; '
+        'non-trivial = non-empty mask / non-empty overlap; distinct by (class, params, position, method, subpixels)')
     ctx.cov['partial_clauses'] = [
-        "'exact' weights of circles/ellipses equal the true area fraction: not proved (needs the integral of "
-        "sqrt(r^2-x^2) and the 130-line triangle/unit-circle routine); supported by an independent analytic "
-        "integration for circles (1e-9) and by sum(weights) == analytic area (1e-8) for circles and ellipses",
-        'geometry kernels live in compiled .pyx files that cannot be rebuilt here (no Cython): tied through '
-        'to_mask() end-to-end only']
-    ctx.assumptions += ['float cos/sin of theta are passed to the model as exact rationals; libm is trusted to be '
-                        'the same for math.cos and the C kernels (decision margin 2^-40 absorbs 1-ulp differences)']
-    n = 260 if ctx.tier == 'quick' else 2500
+        "'exact' weights of circles/ellipses equal the true covered fraction: NOT proved (needs the integral of "
+        'sqrt(r^2-x^2) and the 130-line triangle/unit-circle routine); supported by an independent boundary-'
+        'integration oracle per pixel and by sum(weights) == analytic area',
+        "rectangle 'exact' == 32x32 sub-sampling is proved (translate_mode) and its centre fraction is proved; the "
+        'distance of that fraction from the true area is only tested (polygon clipping, rigorous 63*4/1024 bound)',
+        'bbox minimality is proved from the extents handed to from_float; that the extents (sqrt expressions) are '
+        'the true half-sizes is proved on squares (shape_within_extents) and compared numerically (close_sq 1e-12)']
+    ctx.assumptions += [
+        'float cos/sin of theta are passed to the model as exact rationals; libm is trusted to be the same for '
+        'math.cos and the C kernels (the scaled 2^-40 decision margin absorbs 1-ulp differences)',
+        'the .pyx text is tied through a Python re-interpretation (translator in harness/c01.py: C doubles = Python '
+        'floats, struct copy semantics, libm via math), checked bit-for-bit against the compiled kernels']
+    # ---------------- T: kernel text ----------------
+    ns = None
+    try:
+        ns, spans = load_kernels(core.REPO)
+        ctx.cov['translated_spans'] = spans
+    except Untranslatable as e:
+        ctx.broken_obligation('pyx-untranslatable', {'error': str(e)})
+        ctx.stat('text', 'untranslatable', 1)
+    except Exception as e:   # noqa: BLE001  (a kernel text that does not even load)
+        ctx.broken_obligation('pyx-untranslatable', {'error': repr(e)})
+        ctx.stat('text', 'untranslatable', 1)
+    # ---------------- masks ----------------
+    n = 260 if quick else 2200
     coq_cases, descr = [], []
+    text_differs = 0
+
+    def report(viols):
+        for sig, what, rep in viols:
+            ctx.violation(sig, what, rep)
+
     for k in range(n):
         case = gen_mask_case(rng, ctx.tier)
         aper = make_aperture(case)
         m = aper.to_mask(method=case['method'], subpixels=case['sub'])
-        key = [case['fam'], case['params'], case['px'], case['py'], case['method'], case['sub']]
+        bb = (m.bbox.ixmin, m.bbox.ixmax, m.bbox.iymin, m.bbox.iymax)
+        key = case_key(case)
+        rect, mode, s_eff, use_exact = eff_sub(case)
         ctx.stat('family', case['fam'])
         ctx.stat('method', case['method'])
         ctx.stat('position', case['pos_kind'])
-        ctx.stat('arith', 'lattice-exact' if case['exact_arith'] and case['sub'] in POW2 else 'doubles+margin')
+        ctx.stat('arith', 'lattice-exact' if case['exact_arith'] and s_eff in POW2 else 'doubles+margin')
         ctx.count_case(key, bool(m.data.any()))
-        # direct clauses on the implementation: weights in [0,1]; sum vs area; bbox shape
-        lo, hi = float(m.data.min()), float(m.data.max())
-        if lo < -1e-12 or hi > 1 + 1e-12:
-            ctx.violation(f'to_mask:{case["fam"]}:weights-range', f'mask weight outside [0,1]: [{lo}, {hi}]', key)
-        if not sum_vs_area(case, aper, m):
-            ctx.violation(f'to_mask:{case["fam"]}:sum-vs-area', 'sum of exact weights differs from the analytic area',
-                          {'case': key, 'sum': float(m.data.sum()), 'area': float(aper.area)})
-        if case['method'] == 'exact':
-            err, tol = exact_oracle(case, m)
-            if err is not None:
-                ctx.support('exact-circle-weights-vs-independent-integration')
-                if err > tol:
-                    ctx.violation(f'to_mask:{case["fam"]}:exact-weights', f'exact weight differs from the true '
-                                  f'overlap area by {err:.3e}', key)
-        t = mask_case_coq(case, aper, m)
+        report(direct_checks(ctx, case, aper, m.data, bb, 'compiled'))
+        if rect and mode == 2:
+            m32 = aper.to_mask(method='subpixel', subpixels=32)
+            if not np.array_equal(m32.data, m.data):
+                ctx.violation(f'to_mask:{case["fam"]}:exact-is-subpixel-32', "rectangle 'exact' differs from "
+                              'subpixels=32', mask_rep(case, 'compiled'))
+        if mode == 0:
+            m1 = aper.to_mask(method='subpixel', subpixels=1)
+            if not np.array_equal(m1.data, m.data):
+                ctx.violation(f'to_mask:{case["fam"]}:center-is-subpixel-1', "'center' differs from subpixels=1",
+                              mask_rep(case, 'compiled'))
+        t = mask_case_coq(case, aper, m.data, bb)
         if t is None:
             ctx.violation(f'to_mask:{case["fam"]}:weights-not-k-over-s2', 'a center/subpixel weight is not a '
-                          'multiple of 1/subpixels^2', key)
-            continue
-        coq_cases.append(t)
-        descr.append(key)
+                          'multiple of 1/subpixels^2', mask_rep(case, 'compiled'))
+        else:
+            coq_cases.append(t)
+            descr.append((case, 'compiled'))
         if k < 2:
             ctx.sample({'case': key, 'bbox': repr(m.bbox), 'weights': m.data.tolist()})
-    # bounding-box algebra and slices
-    nb = 300 if ctx.tier == 'quick' else 3000
+        # the same mask through the kernel text
+        if ns is not None and m.data.size * (1 if use_exact else s_eff * s_eff) <= 40000:
+            ctx.stat('text', 'masks-through-pyx-text')
+            try:
+                td = text_mask(ns, case, aper)
+            except Exception as e:   # noqa: BLE001
+                ctx.violation('pyx-text:raises', f'kernel text raises {type(e).__name__}: {e}',
+                              mask_rep(case, 'pyx-text'))
+                continue
+            if not np.array_equal(td, m.data):
+                text_differs += 1
+                ctx.stat('text', 'masks-differing-from-compiled')
+                if len(ctx.cov.setdefault('text_differences', [])) < 5:
+                    ctx.cov['text_differences'].append({'case': key, 'max_abs_diff': float(np.max(np.abs(td - m.data)))})
+                v = direct_checks(ctx, case, aper, td, bb, 'pyx-text')
+                report([(s_.replace('to_mask:', 'pyx-text:'), w_, r_) for s_, w_, r_ in v])
+                tt = mask_case_coq(case, aper, td, bb)
+                if tt is None:
+                    ctx.violation(f'pyx-text:{case["fam"]}:weights-not-k-over-s2', 'a center/subpixel weight of '
+                                  'the kernel text is not a multiple of 1/subpixels^2',
+                                  mask_rep(case, 'pyx-text'))
+                else:
+                    coq_cases.append(tt)
+                    descr.append((case, 'pyx-text'))
+                if not v and float(np.max(np.abs(td - m.data))) > 1e-12 and use_exact:
+                    ctx.stat('text', 'exact-text-vs-compiled-beyond-1e-12')
+    if ns is not None and text_differs:
+        ctx.broken_obligation('pyx-text-vs-compiled', {
+            'what': 'the re-interpreted .pyx text no longer computes what the compiled kernels compute '
+                    '(stale extension module or edited kernel source)', 'masks_differing': text_differs})
+    # ---------------- huge shapes: python oracles only ----------------
+    for k in range(12 if quick else 80):
+        case = gen_huge_case(rng)
+        aper = make_aperture(case)
+        m = aper.to_mask(method=case['method'], subpixels=1)
+        bb = (m.bbox.ixmin, m.bbox.ixmax, m.bbox.iymin, m.bbox.iymax)
+        ctx.stat('family', case['fam'] + '-huge')
+        ctx.count_case(case_key(case), True)
+        report(direct_checks(ctx, case, aper, m.data, bb, 'compiled'))
+        if case['method'] == 'center':
+            nbad, nund = huge_center_oracle(case, m.data, bb)
+            ctx.support('huge-center-masks-vs-vectorised-float-oracle')
+            if nbad:
+                ctx.violation(f'to_mask:{case["fam"]}:center-fraction', f'{nbad} pixels of a large center mask differ '
+                              'from "pixel centre strictly inside"',
+                              mask_rep(case, 'compiled'))
+    # ---------------- integer-shift covariance of masks (from_float_shift) ----------------
+    for k in range(40 if quick else 300):
+        case = gen_mask_case(rng, 'quick')
+        if case['pos_kind'] in ('far', 'double-far') or not case['lat']:
+            continue
+        kx, ky = rng.randint(-7, 7), rng.randint(-7, 7)
+        a1 = make_aperture(case)
+        a2 = make_aperture(dict(case, px=case['px'] + kx, py=case['py'] + ky))
+        m1 = a1.to_mask(method=case['method'], subpixels=case['sub'])
+        m2 = a2.to_mask(method=case['method'], subpixels=case['sub'])
+        ctx.count_case(['shift', case_key(case), kx, ky])
+        same = (m2.bbox.ixmin - m1.bbox.ixmin, m2.bbox.ixmax - m1.bbox.ixmax, m2.bbox.iymin - m1.bbox.iymin,
+                m2.bbox.iymax - m1.bbox.iymax) == (kx, kx, ky, ky) and np.array_equal(m1.data, m2.data)
+        if not same:
+            ctx.violation(f'to_mask:{case["fam"]}:integer-shift', 'mask/bbox not covariant under an integer shift '
+                          'of the centre (lattice input)',
+                          dict(kind='shift', kx=kx, ky=ky, **{k_: case[k_] for k_ in
+                               ('fam', 'params', 'px', 'py', 'method', 'sub')}))
+    # ---------------- bounding-box algebra, from_float and slices ----------------
     from photutils.aperture import BoundingBox
+    nb = 300 if quick else 3000
+    box_descr = []
     for k in range(nb):
         x0, y0 = rng.randint(-8, 12), rng.randint(-8, 12)
         b = (x0, x0 + rng.randint(1, 9), y0, y0 + rng.randint(1, 9))
         ny, nx = rng.randint(1, 10), rng.randint(1, 10)
-        if rng.random() < 0.3:   # straddle / touch each edge exactly
+        r_ = rng.random()
+        if r_ < 0.3:   # straddle / touch each edge exactly
             b = rng.choice([(-3, 0, 0, 2), (nx, nx + 2, 0, 2), (0, 2, -2, 0), (0, 2, ny, ny + 1), (-1, 1, -1, 1),
                             (nx - 1, nx + 1, ny - 1, ny + 1), (0, nx, 0, ny), (-2, nx + 2, -2, ny + 2)])
-        bb = BoundingBox(*b)
-        sl, ss = bb.get_overlap_slices((ny, nx))
-        exp = None if sl is None else Some((((sl[0].start, sl[0].stop), (sl[1].start, sl[1].stop)),
-                                            ((ss[0].start, ss[0].stop), (ss[1].start, ss[1].stop))))
-        if (sl is None) != (ss is None):
-            ctx.violation('get_overlap_slices:half-none', 'only one of the slice pairs is None', [b, ny, nx])
-        coq_cases.append(f'CSlices {coq(b)} {coq(ny)} {coq(nx)} {coq(exp)}')
-        descr.append(['slices', b, ny, nx])
+        elif r_ < 0.38:   # zero-size images
+            ny, nx = rng.choice([(0, nx), (ny, 0), (0, 0)])
+        bb_ = BoundingBox(*b)
+        sl, ss = bb_.get_overlap_slices((ny, nx))
+        msg = slices_oracle(b, (ny, nx), sl, ss)
         ctx.count_case(['slices', b, ny, nx], sl is not None)
+        ctx.stat('slices', 'None' if sl is None else 'overlap')
+        if msg:
+            cls = 'zero-size-image' if 0 in (ny, nx) else 'pixel-set'
+            ctx.violation(f'get_overlap_slices:{cls}', msg, dict(kind='slices', box=list(b), shape=[ny, nx]))
+        if (sl is None) == (ss is None):
+            exp = None if sl is None else Some((((sl[0].start, sl[0].stop), (sl[1].start, sl[1].stop)),
+                                                ((ss[0].start, ss[0].stop), (ss[1].start, ss[1].stop))))
+            coq_cases.append(f'CSlices {coq(b)} {coq(ny)} {coq(nx)} {coq(exp)}')
+            descr.append((dict(kind='slices', box=list(b), shape=[ny, nx]), 'box'))
         x1, y1 = rng.randint(-8, 12), rng.randint(-8, 12)
         b2 = (x1, x1 + rng.randint(1, 9), y1, y1 + rng.randint(1, 9))
         bb2 = BoundingBox(*b2)
-        u = bb | bb2
-        coq_cases.append(f'CUnion {coq(b)} {coq(b2)} {coq((u.ixmin, u.ixmax, u.iymin, u.iymax))}')
-        descr.append(['union', b, b2])
-        it = bb & bb2
+        u = bb_ | bb2
+        it = bb_ & bb2
+        ut = (u.ixmin, u.ixmax, u.iymin, u.iymax)
+        pa = {(y, x) for y in range(b[2], b[3]) for x in range(b[0], b[1])}
+        pb = {(y, x) for y in range(b2[2], b2[3]) for x in range(b2[0], b2[1])}
+        pu = {(y, x) for y in range(ut[2], ut[3]) for x in range(ut[0], ut[1])}
+        ok_u = (pa | pb) <= pu and ut == (min(p[1] for p in pa | pb), max(p[1] for p in pa | pb) + 1,
+                                           min(p[0] for p in pa | pb), max(p[0] for p in pa | pb) + 1)
+        pi = set() if it is None else {(y, x) for y in range(it.iymin, it.iymax) for x in range(it.ixmin, it.ixmax)}
+        if not ok_u or pi != (pa & pb):
+            ctx.violation('BoundingBox:union/intersection', 'union is not the smallest box containing both / '
+                          'intersection is not the common pixels', dict(kind='boxalg', a=list(b), b=list(b2)))
+        coq_cases.append(f'CUnion {coq(b)} {coq(b2)} {coq(ut)}')
+        descr.append((dict(kind='boxalg', a=list(b), b=list(b2)), 'box'))
         coq_cases.append(f'CInter {coq(b)} {coq(b2)} '
                          f'{coq(None if it is None else Some((it.ixmin, it.ixmax, it.iymin, it.iymax)))}')
-        descr.append(['inter', b, b2])
+        descr.append((dict(kind='boxalg', a=list(b), b=list(b2)), 'box'))
         ctx.count_case(['boxalg', b, b2], it is not None)
+        # from_float on dyadic extents incl. exact half-integers (pixel edges) and integers
+        den = rng.choice([1, 2, 2, 4, 8, 1024])
+        xs = sorted(rng.randint(-40 * den, 40 * den) / den for _ in range(2))
+        ys = sorted(rng.randint(-40 * den, 40 * den) / den for _ in range(2))
+        generic = rng.random() < 0.2
+        if generic:
+            xs, ys = sorted(rng.uniform(-40, 40) for _ in range(2)), sorted(rng.uniform(-1e4, 1e4) for _ in range(2))
+        # a generic double closer than 1e-9 to a pixel edge: xmin + 0.5 is rounded, not decided here
+        if generic and any(abs((v + 0.5) - round(v + 0.5)) < 1e-9 for v in xs + ys):
+            ctx.stat('excluded', 'from_float-edge-tie-undecided-in-floats')
+            continue
+        f = BoundingBox.from_float(xs[0], xs[1], ys[0], ys[1])
+        ft = (f.ixmin, f.ixmax, f.iymin, f.iymax)
+        ctx.count_case(['from_float', xs, ys])
+        ctx.stat('from_float', 'generic-double' if generic else f'dyadic/{den}')
+        if from_float_oracle([xs[0], xs[1], ys[0], ys[1]], ft):
+            ctx.violation('BoundingBox.from_float:not-minimal', 'from_float is not the smallest integer pixel box '
+                          'containing the float rectangle', dict(kind='from_float', args=[xs[0], xs[1], ys[0], ys[1]]))
+        coq_cases.append(f'CFromFloat {coq(q(xs[0]))} {coq(q(xs[1]))} {coq(q(ys[0]))} {coq(q(ys[1]))} {coq(ft)}')
+        descr.append((dict(kind='from_float', args=[xs[0], xs[1], ys[0], ys[1]]), 'box'))
     ctx.stat('generator', 'box_algebra_cases', nb)
+    # ---------------- K: evaluate the model in Coq ----------------
     bad = ctx.coq_eval_cases(['C01_Model'], 'check_case', coq_cases, case_type='case', shard_numerals=6000)
     ctx.stat('coq', 'disagreements', len(bad))
-    for i in bad[:10]:
-        detail = {'case': descr[i], 'coq_case': coq_cases[i][:4000]}
+    for i in bad[:12]:
+        d, source = descr[i]
+        if source == 'box':
+            msg = None
+            if d['kind'] == 'slices':
+                sl, ss = BoundingBox(*d['box']).get_overlap_slices(tuple(d['shape']))
+                msg = slices_oracle(tuple(d['box']), tuple(d['shape']), sl, ss)
+            if msg:
+                cls = 'zero-size-image' if 0 in d['shape'] else 'pixel-set'
+                ctx.violation(f'get_overlap_slices:{cls}', msg, d)
+            else:
+                ctx.violation('correspondence:C01_Model.check_case:' + d['kind'], 'BoundingBox result differs from '
+                              'the proved model although the pixel-set oracle accepts it',
+                              dict(d, coq_case=coq_cases[i]), found_input=False)
+            continue
+        case = d
+        rep = mask_rep(case, source)
+        verdict = replay_mask(rep, ns, verbose=False)
         try:
-            detail['model'] = ctx.coq_eval_term(['C01_Model'], f'model_out ({coq_cases[i]})')[:4000]
-        except Exception as e:   # noqa
-            detail['model'] = 'n/a'
-        ctx.violation('to_mask/bbox:model-mismatch:' + str(descr[i][0]),
-                      'mask weights / bounding box / overlap slices differ from the proved model '
-                      '(fraction of sub-pixel centres inside the shape; minimal box; exact common pixels)', detail)
-    # ApertureMask.to_image / cutout agree with the slices (direct clause)
-    from photutils.aperture import CircularAperture
-    for k in range(60 if ctx.tier == 'quick' else 600):
-        ny, nx = rng.randint(1, 9), rng.randint(1, 9)
-        ap_ = CircularAperture((lattice(rng, -4, nx + 3), lattice(rng, -4, ny + 3)), r=lattice(rng, 0.25, 4))
-        m = ap_.to_mask(method='center')
-        img = m.to_image((ny, nx))
-        sl, ss = m.get_overlap_slices((ny, nx))
-        data = np.arange(ny * nx, dtype=float).reshape(ny, nx) + 1
-        cut = m.cutout(data, fill_value=-7.0)
-        ctx.count_case(['to_image', ny, nx, ap_.positions.tolist(), float(ap_.r)], sl is not None)
-        ok = True
-        if sl is None:
-            ok = img is None and cut is None
+            rep['model'] = ctx.coq_eval_term(['C01_Model'], f'model_out ({coq_cases[i]})')[:3000]
+        except Exception:   # noqa: BLE001
+            rep['model'] = 'n/a'
+        rep['coq_case'] = coq_cases[i][:3000]
+        pre = 'to_mask' if source == 'compiled' else 'pyx-text'
+        if verdict:
+            ctx.violation(f'{pre}:{case["fam"]}:centre-fraction', verdict, rep)
         else:
-            want = np.zeros((ny, nx))
-            want[sl] = m.data[ss]
-            wc = np.full(m.data.shape, -7.0)
-            wc[ss] = data[sl]
-            ok = img is not None and np.array_equal(img, want) and np.array_equal(cut, wc)
-        if not ok:
-            ctx.violation('ApertureMask:to_image/cutout', 'to_image/cutout disagree with the overlap slices',
-                          {'shape': [ny, nx], 'pos': ap_.positions.tolist(), 'r': float(ap_.r)})
+            ctx.violation(f'correspondence:C01_Model.check_case:{pre}:{case["fam"]}', 'mask / bounding box differ from '
+                          'the proved model but the independent rational oracle accepts the implementation', rep,
+                          found_input=False)
+    # ---------------- ApertureMask.to_image / cutout agree with the slices (direct clause) ----------------
+    from photutils.aperture import CircularAperture
+    for k in range(60 if quick else 600):
+        ny, nx = rng.randint(1, 9), rng.randint(1, 9)
+        if rng.random() < 0.08:
+            ny, nx = rng.choice([(0, nx), (ny, 0)])
+        ap_ = CircularAperture((lattice(rng, -4, nx + 3), lattice(rng, -4, ny + 3)), r=lattice(rng, 0.25, 4))
+        rep = dict(kind='to_image', shape=[ny, nx], pos=[float(v) for v in ap_.positions], r=float(ap_.r))
+        ctx.count_case(['to_image', ny, nx, rep['pos'], rep['r']], True)
+        msg = to_image_check(rep)
+        if msg:
+            ctx.violation('ApertureMask:to_image/cutout' + (':zero-size-image' if 0 in (ny, nx) else ''), msg, rep)
+
+
+def to_image_check(rep):
+    from photutils.aperture import CircularAperture
+    ny, nx = rep['shape']
+    m = CircularAperture(tuple(rep['pos']), r=rep['r']).to_mask(method='center')
+    b = (m.bbox.ixmin, m.bbox.ixmax, m.bbox.iymin, m.bbox.iymax)
+    common = {(y, x) for y in range(max(b[2], 0), min(b[3], ny)) for x in range(max(b[0], 0), min(b[1], nx))}
+    img = m.to_image((ny, nx))
+    data = np.arange(ny * nx, dtype=float).reshape(ny, nx) + 1
+    cut = m.cutout(data, fill_value=-7.0)
+    if not common:
+        return None if (img is None and cut is None) else 'no common pixel but to_image/cutout is not None'
+    if img is None or cut is None:
+        return 'common pixels exist but to_image/cutout is None'
+    want = np.zeros((ny, nx))
+    wc = np.full(m.data.shape, -7.0)
+    for (y, x) in common:
+        want[y, x] = m.data[y - b[2], x - b[0]]
+        wc[y - b[2], x - b[0]] = data[y, x]
+    if not (np.array_equal(img, want) and np.array_equal(cut, wc)):
+        return 'to_image/cutout do not place exactly the common pixels'
+    return None
+
+
+# =====================================================================================================
+def replay_mask(rep, ns=None, verbose=True):
+    """Re-run one mask input through the named route and the oracles; returns a message if the property
+    fails on it, '' otherwise."""
+    case = dict(fam=rep['fam'], params=rep['params'], px=rep['px'], py=rep['py'], method=rep['method'],
+                sub=rep['sub'], exact_arith=rep.get('exact_arith', False), lat=rep.get('lat', False))
+    aper = make_aperture(case)
+    if rep.get('source') == 'pyx-text':
+        if ns is None:
+            ns, _ = load_kernels(core.REPO)
+        bbx = aper._bbox[0]
+        data = text_mask(ns, case, aper)
+    else:
+        m = aper.to_mask(method=case['method'], subpixels=case['sub'])
+        bbx, data = m.bbox, m.data
+    bb = (bbx.ixmin, bbx.ixmax, bbx.iymin, bbx.iymax)
+    rect, mode, s_eff, use_exact = eff_sub(case)
+
+    class _C:   # minimal ctx for direct_checks
+        def support(self, *a):
+            pass
+
+        def stat(self, *a):
+            pass
+    msgs = [w for _, w, _ in direct_checks(_C(), case, aper, data, bb, rep.get('source', 'compiled'))]
+    if not use_exact and data.size * s_eff * s_eff <= 400000:
+        ex, ey = (float(v) for v in aper._xy_extents)
+        tol = None if (rep.get('exact_arith') and s_eff in POW2) else case_tol(case, ex, ey)
+        want, dec = oracle_counts(case, bb, s_eff, tol)
+        got = counts_from_weights(data, s_eff)
+        if got is None:
+            msgs.append('a weight is not a multiple of 1/subpixels^2')
+        else:
+            badpix = dec & (want != got)
+            if badpix.any():
+                j, i = np.argwhere(badpix)[0]
+                msgs.append(f'pixel (y={bb[2] + j}, x={bb[0] + i}): weight {got[j, i]}/{s_eff * s_eff} but '
+                            f'{want[j, i]} of its {s_eff * s_eff} sub-pixel centres lie inside the shape')
+    if verbose:
+        print('input:', case, 'route:', rep.get('source', 'compiled'))
+        print('bbox:', bb)
+        for w in msgs:
+            print('  FAIL:', w)
+    return '; '.join(msgs)
 
 
 def replay(obj):
-    print(obj.get('what'))
-    print('replay: re-run `bin/check C01` (the case is regenerated from the recorded seed):', obj.get('seed'))
-    return 1
+    r = obj['replay']
+    kind = r.get('kind') if isinstance(r, dict) else None
+    core.setup_repo_path()
+    from photutils.aperture import BoundingBox
+    msg = None
+    if kind == 'mask':
+        msg = replay_mask(r)
+    elif kind == 'slices':
+        sl, ss = BoundingBox(*r['box']).get_overlap_slices(tuple(r['shape']))
+        print('box', r['box'], 'shape', r['shape'], '->', sl, ss)
+        msg = slices_oracle(tuple(r['box']), tuple(r['shape']), sl, ss)
+    elif kind == 'to_image':
+        msg = to_image_check(r)
+    elif kind == 'from_float':
+        f = BoundingBox.from_float(*r['args'])
+        print('from_float', r['args'], '->', f)
+        msg = from_float_oracle(r['args'], (f.ixmin, f.ixmax, f.iymin, f.iymax))
+    elif kind == 'boxalg':
+        a, b = BoundingBox(*r['a']), BoundingBox(*r['b'])
+        print('union', a | b, 'intersection', a & b)
+        u, it = a | b, a & b
+        pa = {(y, x) for y in range(a.iymin, a.iymax) for x in range(a.ixmin, a.ixmax)}
+        pb = {(y, x) for y in range(b.iymin, b.iymax) for x in range(b.ixmin, b.ixmax)}
+        pi = set() if it is None else {(y, x) for y in range(it.iymin, it.iymax) for x in range(it.ixmin, it.ixmax)}
+        ok = pi == (pa & pb) and (u.ixmin, u.ixmax, u.iymin, u.iymax) == (
+            min(p[1] for p in pa | pb), max(p[1] for p in pa | pb) + 1, min(p[0] for p in pa | pb),
+            max(p[0] for p in pa | pb) + 1)
+        msg = None if ok else 'union/intersection wrong'
+    elif kind == 'shift':
+        case = dict(fam=r['fam'], params=r['params'], px=r['px'], py=r['py'], method=r['method'], sub=r['sub'])
+        m1 = make_aperture(case).to_mask(method=case['method'], subpixels=case['sub'])
+        m2 = make_aperture(dict(case, px=case['px'] + r['kx'], py=case['py'] + r['ky'])).to_mask(
+            method=case['method'], subpixels=case['sub'])
+        print(m1.bbox, m2.bbox)
+        ok = np.array_equal(m1.data, m2.data) and (m2.bbox.ixmin - m1.bbox.ixmin, m2.bbox.iymin - m1.bbox.iymin) == \
+            (r['kx'], r['ky'])
+        msg = None if ok else 'not covariant under the integer shift'
+    else:
+        print(obj.get('what'))
+        print('no single input recorded (broken obligation / correspondence); re-run `bin/check C01`')
+        return 1
+    print('property holds on this input' if not msg else 'property FAILS on this input: ' + msg)
+    return 1 if msg else 0
